@@ -189,6 +189,15 @@ def g_c05(tier, seed):
                 samples=[dict(family="Uniform", point="outside")], failures=fails[:5], errors=[])
 
 
+@grid("C06")
+def g_c06(tier, seed):
+    cnt = []
+    fails = rt.rt_c06(tier, count=cnt)
+    return dict(evaluations=cnt[0] if cnt else 0, distinct_nontrivial=cnt[0] if cnt else 0,
+                rule="_get_ufunc_signature exhaustively over shape tuples of rank <= 2 (3 in thorough) with one- and two-digit dims vs an independent formatter; real distributions whose value depends on x and the condition (event/cond ranks 0-2) x batch lattices with size-1 axes: every element of a batched log_prob equals the unbatched call; sample shapes, determinism, no repeated draws, joint path consistency",
+                samples=[dict(dist="cond event (2,), cond (3,)", sample_shape=[5], cond_batch=[4])], failures=fails[:5], errors=[])
+
+
 @grid("C17")
 def g_c17(tier, seed):
     cnt = []
